@@ -28,6 +28,13 @@ impl<T> ErrorEnvelope<T> {
         &self.0
     }
 
+    /// The positions carried by the envelope: the failing statement first,
+    /// then the active call sites.
+    #[cfg(feature = "verif")]
+    pub fn verif_positions(&self) -> &[Position] {
+        &self.1
+    }
+
     pub fn appen_draining_stacktrace(self, stacktrace: &mut Vec<Position>) -> Self {
         let Self(err, mut old_stacktrace) = self;
         old_stacktrace.append(stacktrace);
